@@ -34,6 +34,14 @@ def term_rename(prog):
             stores.append((n, ok, unparse(n.ast.value)))
     good = [n for n, ok, _ in stores if ok]
     all_paths = bool(good) and g.must_pass(g.entry, g.exit, good)
+    # ... and only once: a second application renames the result of the first (a swap is undone)
+    term_rename.twice = None
+    for n in good:
+        after = [b for b, lab in g.succ[n.id] if lab not in ('exc', 'raise')]
+        hit = [m for m in good if m.id in g.reach(after, include_src=True)]
+        if hit:
+            term_rename.twice = (n, hit[0])
+            break
     return rt, stores, all_paths
 
 
@@ -235,30 +243,33 @@ def initial_value_text_exact(prog):
                 out.append((f_raw, '%s:%d' % (f.module.rel, c.lineno), False, 'the record appended is not a (sector, variable, value) triple'))
                 continue
             val = tup.elts[2]
-            # names the value may be: the parameter, or a name assigned float(<that>) (also re-binding the parameter)
-            exact = set()
+            # exact renderings of the number supplied:  E := <value parameter> | float(E) | str(E) | repr(E) | a local every binding
+            # of which is an E   (str / repr of a float round-trip exactly; float() of what the user passed is the number itself)
+            binds = {}
             for n in ast.walk(f.node):
-                if isinstance(n, ast.Assign) and len(n.targets) == 1 and isinstance(n.targets[0], ast.Name):
-                    v = n.value
-                    if isinstance(v, ast.Call) and call_name(v) == 'float' and len(v.args) == 1 and isinstance(v.args[0], ast.Name) and \
-                            v.args[0].id in params:
-                        exact.add((n.targets[0].id, v.args[0].id))
-            srcs = {p for p in params if any(isinstance(x, ast.Name) and x.id == p for x in ast.walk(val))} | \
-                   {src for nm, src in exact if any(isinstance(x, ast.Name) and x.id == nm for x in ast.walk(val))}
-            inner = val
-            if isinstance(inner, ast.Call) and call_name(inner) in ('str', 'repr') and len(inner.args) == 1 and not inner.keywords:
-                inner = inner.args[0]
-            ok = isinstance(inner, ast.Name) and (inner.id in params or inner.id in {nm for nm, _ in exact})
-            # every other assignment to that name must be the float() forcing
-            if ok:
-                for n in ast.walk(f.node):
-                    if isinstance(n, (ast.Assign, ast.AugAssign)):
-                        tg = n.targets if isinstance(n, ast.Assign) else [n.target]
-                        if any(isinstance(t, ast.Name) and t.id == inner.id for t in tg):
-                            v = n.value
-                            if not (isinstance(n, ast.Assign) and isinstance(v, ast.Call) and call_name(v) == 'float' and len(v.args) == 1
-                                    and isinstance(v.args[0], ast.Name) and v.args[0].id in params):
-                                ok = False
+                if isinstance(n, ast.Assign):
+                    for t in n.targets:
+                        for nm in target_names(t):
+                            binds.setdefault(nm, []).append(n.value if isinstance(t, ast.Name) else None)
+                elif isinstance(n, (ast.AugAssign, ast.For, ast.With)):
+                    tg = n.target if isinstance(n, (ast.AugAssign, ast.For)) else None
+                    for nm in (target_names(tg) if tg is not None else []):
+                        binds.setdefault(nm, []).append(None)
+
+            def exact_e(e, seen=()):
+                if isinstance(e, ast.Name):
+                    if e.id in seen:
+                        return True
+                    bs = binds.get(e.id, [])
+                    if e.id in params:
+                        return all(b is not None and exact_e(b, seen + (e.id,)) for b in bs)
+                    return bool(bs) and all(b is not None and exact_e(b, seen + (e.id,)) for b in bs)
+                if isinstance(e, ast.Call) and call_name(e) in ('float', 'str', 'repr') and isinstance(e.func, ast.Name) and len(e.args) == 1 \
+                        and not e.keywords:
+                    return exact_e(e.args[0], seen)
+                return False
+            ok = exact_e(val) and any(isinstance(x, ast.Name) and x.id in params for x in ast.walk(val)) or \
+                (exact_e(val) and isinstance(val, ast.Name))
             out.append((f_raw, '%s:%d' % (f.module.rel, c.lineno), ok,
                         'the value recorded is the number supplied, rendered exactly (%s)' % unparse(val) if ok else
                         'the value recorded is `%s`: not an exact rendering of the number supplied, the k=0 value differs from the stated one'
